@@ -55,6 +55,11 @@ pub struct Case {
     /// the signal arrives only after the pooler has been up for longer than shutdown_timeout (then 2.5 s)
     #[serde(default)]
     pub late_signal: bool,
+    /// connections that are not client sessions, made (and finished) before the signal: 0 = CancelRequest with an unknown key,
+    /// 1 = CancelRequest with the key of the first client, 2 = connect and close without a byte, 3 = SSLRequest then close,
+    /// 4 = login with a wrong password, 5 = start-up for an unconfigured database
+    #[serde(default)]
+    pub visitors_before: Vec<u8>,
 }
 
 const LATE_TIMEOUT_MS: u32 = 2500;
@@ -73,7 +78,7 @@ impl Part for WirePart {
         true
     }
     fn rule(&self) -> String {
-        "populations of 1..6 clients in generated states at signal time {idle (fresh or used), inside a transaction, statement held at the backend, extended batch without Sync, mid-authentication, session-mode owner, admin}, trigger SIGINT / admin SHUTDOWN / SIGTERM, shutdown_timeout 400 ms or 10 s, optionally one transaction that never ends, optionally 1..2 clients that dropped their socket before the signal, and in 8% of the cases a signal that arrives after an uptime longer than shutdown_timeout (2.5 s) with a transaction open; after the signal has been observed the clients act in a generated order and new admin / non-admin logins are attempted. Oracle: idle transaction-mode clients get the administrator-command error and a close; open work (transaction, held statement, unsynced batch) completes with the client's own rows and the client is disconnected afterwards; a client that was mid-authentication is refused or disconnected right after start-up; new non-admin logins are refused, admin logins accepted; the process exits with status 0 within 2 s of the last client leaving (or shutdown_timeout + 2 s when one never leaves); SIGTERM exits within 2 s regardless. Non-trivial = at least one client with open work at signal time".into()
+        "populations of 1..6 clients in generated states at signal time {idle (fresh or used), inside a transaction, statement held at the backend, extended batch without Sync, mid-authentication, session-mode owner, admin}, trigger SIGINT / admin SHUTDOWN / SIGTERM, shutdown_timeout 400 ms or 10 s, optionally one transaction that never ends, optionally 1..2 clients that dropped their socket before the signal, optionally 1..3 connections before the signal that never become sessions (CancelRequest with an unknown or a live key, connect-and-close, SSLRequest-and-close, failed login, unknown database), and in 8% of the cases a signal that arrives after an uptime longer than shutdown_timeout (2.5 s) with a transaction open; after the signal has been observed the clients act in a generated order and new admin / non-admin logins are attempted. Oracle: idle transaction-mode clients get the administrator-command error and a close; open work (transaction, held statement, unsynced batch) completes with the client's own rows and the client is disconnected afterwards; a client that was mid-authentication is refused or disconnected right after start-up; new non-admin logins are refused, admin logins accepted; the process exits with status 0 within 2 s of the last client leaving (or shutdown_timeout + 2 s when one never leaves); SIGTERM exits within 2 s regardless. Non-trivial = at least one client with open work at signal time".into()
     }
     fn cases(&self, tier: Tier) -> u64 {
         tier.pick(600, 8_000)
@@ -98,22 +103,23 @@ impl Part for WirePart {
             prop::collection::vec(any::<u16>(), 8),
             prop_oneof![3 => Just(0u8), 1 => 1u8..3],
             prop::bool::weighted(0.08),
+            prop_oneof![2 => Just(vec![]), 3 => prop::collection::vec(0u8..6, 1..4)],
         )
-            .prop_map(|(states, trigger, _t, one_never_leaves, workers, order, gone_before, late_signal)| {
+            .prop_map(|(states, trigger, _t, one_never_leaves, workers, order, gone_before, late_signal, visitors_before)| {
                 // the short shutdown_timeout is only used for the "one transaction never ends" class, where
                 // that transaction is the only open work (otherwise the timeout could legitimately cut
                 // other clients off while the harness is still driving them)
                 if one_never_leaves && trigger != Trigger::Sigterm {
                     let mut st: Vec<State> = states.into_iter().map(|s| if matches!(s, State::Idle | State::IdleUsed | State::Admin) { s } else { State::Idle }).collect();
                     st.push(State::InTxn);
-                    Case { states: st, trigger, shutdown_timeout_ms: 400, one_never_leaves: true, workers, order, gone_before, late_signal: false }
+                    Case { states: st, trigger, shutdown_timeout_ms: 400, one_never_leaves: true, workers, order, gone_before, late_signal: false, visitors_before: visitors_before.clone() }
                 } else if late_signal && trigger != Trigger::Sigterm {
                     // few clients, one of them inside a transaction: the grace period must start at the signal
                     let mut st: Vec<State> = states.into_iter().take(2).collect();
                     st.push(State::InTxn);
-                    Case { states: st, trigger, shutdown_timeout_ms: LATE_TIMEOUT_MS, one_never_leaves: false, workers, order, gone_before, late_signal: true }
+                    Case { states: st, trigger, shutdown_timeout_ms: LATE_TIMEOUT_MS, one_never_leaves: false, workers, order, gone_before, late_signal: true, visitors_before: visitors_before.clone() }
                 } else {
-                    Case { states, trigger, shutdown_timeout_ms: 10_000, one_never_leaves: false, workers, order, gone_before, late_signal: false }
+                    Case { states, trigger, shutdown_timeout_ms: 10_000, one_never_leaves: false, workers, order, gone_before, late_signal: false, visitors_before: visitors_before.clone() }
                 }
             })
             .boxed()
@@ -259,7 +265,36 @@ async fn run_case(c: &Case, ctx: &mut WorkerCtx) -> Outcome {
         }
         o.label("client_dropped_before_signal");
     }
-    if c.gone_before > 0 {
+    // ---- connections that never become client sessions (they must not disturb the shutdown accounting)
+    for (k, v) in c.visitors_before.iter().enumerate() {
+        o.label(&format!("visitor_before_signal:{}", v));
+        if let Ok(mut g) = Cli::connect(70 + k as u32, &env.addr(), false).await {
+            match v {
+                0 => {
+                    g.send(&proto::cancel_request(123_456 + k as i32, 987_654)).await;
+                }
+                1 => {
+                    let (pid, key) = cls.first().map(|c| (c.cli.backend_pid, c.cli.backend_key)).unwrap_or((1, 1));
+                    g.send(&proto::cancel_request(pid, key)).await;
+                }
+                2 => {}
+                3 => {
+                    g.send(&proto::ssl_request()).await;
+                    let _ = g.read_msg(Duration::from_millis(50)).await;
+                }
+                4 => {
+                    let _ = g.startup("u", "db", &[], Password::Md5("u", "not-the-password")).await;
+                }
+                _ => {
+                    let _ = g.startup("u", "no_such_db", &[], Password::Md5("u", "pw")).await;
+                }
+            }
+            // the pooler closes cancel connections itself; give it a moment, then close ours
+            let _ = g.read_until_closed(Duration::from_millis(60)).await;
+            g.close();
+        }
+    }
+    if c.gone_before > 0 || !c.visitors_before.is_empty() {
         tokio::time::sleep(Duration::from_millis(40)).await;
     }
     if c.late_signal {
